@@ -51,6 +51,8 @@ pub fn tifs() -> Vec<TimeInForce> {
         TimeInForce::Fok,
         TimeInForce::Day,
         TimeInForce::Gtd(0),
+        TimeInForce::Gtd(10_000),
+        TimeInForce::Gtd(1 << 63),
         TimeInForce::Gtd(BIG),
         TimeInForce::Gtd(M),
     ]
@@ -70,7 +72,7 @@ pub const SIDES: [Side; 2] = [Side::Buy, Side::Sell];
 /// every order variant over the boundary grid
 pub fn orders(full: bool) -> Vec<Ord_> {
     let qs: Vec<u64> = if full {
-        vec![0, 1, BIG, M - 1, M]
+        vec![0, 1, 10_000, (1 << 32) - 1, 1 << 63, BIG, M - 1, M]
     } else {
         vec![0, 1, M]
     };
@@ -759,9 +761,9 @@ pub fn finish_grid(report: &mut Report, t: Tally, prop: &str, rule: &str) {
 pub fn c05_grid(full: bool) -> Tally {
     let mut t = Tally::new();
     let mut qv: Vec<u64> = (0..=8).collect();
-    qv.extend([79, 80, 81, M - 1, M]);
+    qv.extend([79, 80, 81, 255, 256, 65_536, (1 << 32) - 1, 1 << 32, 1 << 63, M - 1, M]);
     let mut inc: Vec<u64> = (0..=10).collect();
-    inc.extend([79, 80, 81, M - 1, M]);
+    inc.extend([79, 80, 81, 255, 256, 65_535, 1 << 32, (1 << 63) + 1, M - 1, M]);
     let thrs = [0, 1, 2, 3, 9, M];
     let amts = [None, Some(0), Some(1), Some(2), Some(80), Some(81), Some(M)];
     let id = oid(7);
@@ -900,7 +902,7 @@ pub fn run_c05(tier: &str) -> i32 {
     }
     report.cov("evaluations", json!(t.evaluations));
     report.cov("distinct_nontrivial", json!(t.nontrivial));
-    report.cov("rule", json!("full Cartesian product: 7 order types x displayed, hidden in {0..8,79,80,81,MAX-1,MAX} (displayed+hidden <= MAX) x threshold in {0,1,2,3,9,MAX} x amount in {None,0,1,2,80,81,MAX} x auto x incoming in {0..10,79,80,81,MAX-1,MAX} x side; each match_against result is checked against the statement's predicates (iceberg tranche as an inequality, everything else exactly); non-trivial = displayed > 0, incoming > 0 and the order is partially filled or has hidden quantity"));
+    report.cov("rule", json!("full Cartesian product: 7 order types x displayed, hidden in {0..8,79,80,81,255,256,2^16,2^32-1,2^32,2^63,MAX-1,MAX} (displayed+hidden <= MAX) x threshold in {0,1,2,3,9,MAX} x amount in {None,0,1,2,80,81,MAX} x auto x incoming in {0..10,79,80,81,255,256,2^16-1,2^32,2^63+1,MAX-1,MAX} x side; each match_against result is checked against the statement's predicates (iceberg tranche as an inequality, everything else exactly); non-trivial = displayed > 0, incoming > 0 and the order is partially filled or has hidden quantity"));
     report.cov("samples", json!(t.samples));
     report.cov("exhaustive", json!(true));
     report.assumptions = vec!["grid values only; the same rules are observed through PriceLevel::match_order by engine S (C02, C04)".into()];
